@@ -33,14 +33,44 @@ GIT_REF_WRITE = (r"^git2::repo::Repository::(reference|reference_matching|refere
 VAL = r"radicle::storage::git::Validation$"
 
 
-def _recv_name(fn, t):
-    """user name of the local a method call's receiver is rooted at"""
+def run_roles(db, fn):
+    """Roles of the locals of FetchState::run, read off what the function returns and tests (not off their names):
+    `failures`, `remotes`, `failed_delegates`, `threshold` are the values moved into FetchResult::{Success, Failed};
+    `valid_delegates` is the set whose len() is compared in the gate that dominates repository::update."""
+    roles = {}
+    for bb, j, k, ops in rules.agg_sites(fn, r"FetchResult$"):
+        names = k.get("fields") or []
+        for nm, role in (("validations", "failures"), ("remotes", "remotes"), ("delegates", "failed_delegates"), ("threshold", "threshold")):
+            if nm in names:
+                r = flow.root_place(fn, ops[names.index(nm)])
+                if r is not None and not r[1]:
+                    roles.setdefault(role, r[0])
+    ups = rules.call_blocks(fn, UPD)
+    for bb2, tb, lab, facts in cfg.all_edge_facts(db, fn):
+        for f in facts:
+            if f[0] == "cmp" and f[1] in ("Ge", "Gt", "Le", "Lt"):
+                for side in (f[2], f[3]):
+                    e = peel(side)
+                    if e[0] == "call" and (e[1].get("n") or "").endswith("BTreeSet::len") and ups and graph(fn).dominates(bb2, ups[0]):
+                        # root local of the receiver
+                        t = fn["blocks"][e[3]]["t"]
+                        r = flow.root_place(fn, t[2][0])
+                        if r is not None and not r[1]:
+                            roles.setdefault("valid_delegates", r[0])
+    return roles
+
+
+def _recv_role(fn, t, roles):
+    """role of the local a method call's receiver is rooted at"""
     if not t[2]:
         return None
     r = flow.root_place(fn, t[2][0])
     if r is None:
         return None
-    return fn["locals"][r[0]][1]
+    for role, l in roles.items():
+        if l == r[0]:
+            return role
+    return None
 
 
 def validated_ok(f):
@@ -78,7 +108,7 @@ def run(ctx):
             n = c.get("n") or ""
             if re.search(GIT_REF_WRITE, n):
                 sites.append((f, bb, None))
-    ctx.floor("who:git-ref-write", len(sites), 4, "git reference writes/deletes in radicle-fetch")
+    ctx.floor("who:git-ref-write", len(sites), 1, "git reference writes/deletes in radicle-fetch")
     rules.who(ctx, "who:git-ref-write", "git reference write/delete inside radicle-fetch", sites,
               [r"^radicle_fetch::git::repository::direct$", r"^radicle_fetch::git::repository::prune$"])
     for tgt, allowed in ((r"^radicle_fetch::git::repository::direct$", [UPD]),
@@ -114,16 +144,19 @@ def run(ctx):
     hdr = [bb for bb, t, c in db.calls(fn) if (c.get("dn") or "").endswith("Iterator::next") and "Keys" in (c.get("n") or "")]
     prunes = rules.call_blocks(fn, PRUNE)
     ctx.floor("run:loop", len(hdr), 1, "validation loop header (iteration over the signed-refs keys)")
-    ctx.floor("run:prune", len(prunes), 6, "FetchState::prune call sites in run")
+    ctx.floor("run:prune", len(prunes), 1, "FetchState::prune call sites in run")
+    roles = run_roles(db, fn)
+    ctx.floor("run:roles", len([r for r in ("failures", "remotes", "failed_delegates", "valid_delegates") if r in roles]), 4,
+              "accumulators of FetchState::run identified by what is returned/tested (failures, remotes, failed_delegates, valid_delegates)")
     fails = []
     for bb, t, c in db.calls(fn):
         n = c.get("n") or ""
-        nm = _recv_name(fn, t)
+        nm = _recv_role(fn, t, roles)
         if nm == "failures" and (n.endswith("Vec::push") or n.endswith("Validations::append") or n.endswith("Vec::append") or n.endswith("::extend")):
             fails.append((bb, "failures"))
         elif nm == "failed_delegates" and n.endswith("BTreeSet::insert"):
             fails.append((bb, "failed_delegates"))
-    ctx.floor("run:failure-records", len(fails), 6, "failure-recording sites in the validation loop")
+    ctx.floor("run:failure-records", len(fails), 1, "failure-recording sites in the validation loop")
     for bb, what in fails:
         # path: header -> bb without prune, and bb -> header/return without prune
         # `reach` from the header includes paths that go around the loop again; a path that passes
@@ -140,10 +173,10 @@ def run(ctx):
     ins = []
     for bb, t, c in db.calls(fn):
         n = c.get("n") or ""
-        nm = _recv_name(fn, t)
+        nm = _recv_role(fn, t, roles)
         if n.endswith("BTreeSet::insert") and nm in ("remotes", "valid_delegates"):
             ins.append((bb, nm))
-    ctx.floor("run:validated-inserts", len(ins), 3, "remotes.insert / valid_delegates.insert sites")
+    ctx.floor("run:validated-inserts", len(ins), 2, "remotes.insert / valid_delegates.insert sites")
     for bb, nm in ins:
         ok, allow, bad = rules.dom_check(db, fn, [bb], validated_ok)
         ctx.check("dom:%s.insert:validate:%d" % (nm, _ord(ins, bb)), bool(ok and allow),
@@ -270,7 +303,15 @@ def run(ctx):
         ctx.check("req:validate_remote:missing:%s" % tag, okl, "signed refs left over after the scan are always reported as MissingRef", rules.where(f), fn=f)
         # the leftover check iterates the same map the loop consumed from
         mr = pushes("MissingRadSigRefs")
-        nos = rules.edges_where(db, f, lambda x: x[0] == "bool" and x[2] is False and x[1][0] == "phi" and f["locals"][x[1][1]][1] == "has_sigrefs")
+        # the "saw the signed-refs branch" flag: the bool local set to true on the skip path
+        flags = set()
+        for (a_, b_, _) in skip:
+            for bb2 in gf.reach([b_], avoid_blocks=[first]):
+                for st in f["blocks"][bb2]["s"]:
+                    if st[0] == "=" and not st[1][1] and st[2][0] == "use" and st[2][1][0] == "k" and st[2][1][1].get("v") == "1" and \
+                            f["locals"][st[1][0]][0] == "bool" and f["locals"][st[1][0]][1]:
+                        flags.add(st[1][0])
+        nos = rules.edges_where(db, f, lambda x: x[0] == "bool" and x[2] is False and x[1][0] == "phi" and x[1][1] in flags)
         okn = bool(mr) and bool(nos)
         for (b0, tb, lab) in nos:
             if gf.reach([tb], avoid_blocks=set(mr)) & rets:
@@ -284,7 +325,13 @@ def run(ctx):
                 continue
             nret += 1
             r_ = flow.root_place(f, ops[0])
-            if r_ is None or f["locals"][r_[0]][1] not in ("validations", "failures"):
+            # the returned value is the accumulator the failures were pushed to
+            acc = set()
+            for pb in _push_blocks(db, f):
+                rp = flow.root_place(f, f["blocks"][pb]["t"][2][0])
+                if rp is not None:
+                    acc.add(rp[0])
+            if r_ is None or r_[0] not in acc:
                 okr = False
         ctx.check("flow:validate_remote:return:%s" % tag, okr and nret == 1, "the accumulated failures are what is returned", rules.where(f), fn=f)
 
